@@ -82,6 +82,11 @@ theorem foldl_slashOne_le (l : List Nat) (m : Map Oracle) : onlinePower (l.foldl
   | nil => simp
   | cons o r ih => exact Nat.le_trans (ih (slashOne m o)) (slashOne_le m o)
 
+/-- in the order of the source the old bridger's index entry is the one that is deleted -/
+theorem editIndex_eq (m : Map Nat) (old b o : Nat) : editIndex m old b o = (m.del old).set b o := by
+  have : editBridgerDeletesOldIndexFirst = true := by decide
+  simp [editIndex, this]
+
 /-! ## `applyRefresh` only touches the recorded total -/
 
 theorem applyRefresh_eq (r : RefreshRule) (pos : Bool) (old s' : State) :
@@ -760,7 +765,7 @@ theorem binv_step (s : State) (op : Op) (hB : BInv s) : BInv (step s op).1 := by
     all_goals first | exact hB | skip
     rename_i orc hgo _ hneq _
     intro b' a' hg
-    simp only [] at hg ⊢
+    simp only [editIndex_eq] at hg ⊢
     by_cases hb : b = b'
     · subst hb
       rw [get_set_self] at hg; cases hg
